@@ -53,7 +53,7 @@ def make_umat(fem, m):
         bulk = p.pop("bulk")
         return fem.CompositeMaterial(gmat.build("tt:yeoh", p), fem.Volumetric(bulk=bulk))
     p = dict(m["params"])
-    if m["name"] == "NeoHooke":
+    if m["name"] == "NeoHooke" and not m.get("soft"):
         p["bulk"] = max(p["bulk"], 2 * p["mu"])  # keep the compressible response well conditioned
     return gmat.build(m["name"], p)
 
@@ -73,6 +73,15 @@ def patch_check(kind, case, rec):
     fem = import_felupe()
     mesh, info = gm.build(case["mesh"])
     dim = info["dim"]
+    if case["mesh"]["kind"] in ("quad", "hexahedron") and case["mesh"].get("jseed", 0) % 2 == 0:
+        # an earlier post-processing call on another region of the same template (the templates share one default
+        # quadrature instance per class) must not change what a region created afterwards computes
+        r0 = gm.region(mesh, info)
+        q_before = (np.array(r0.quadrature.points, float), np.array(r0.quadrature.weights, float))
+        fem.tools.extrapolate(np.ones((3, 3) + r0.dV.shape), r0, mean=False)
+        rec.require("post-processing-leaves-the-quadrature-unchanged", np.array_equal(q_before[0], np.asarray(r0.quadrature.points, float))
+                    and np.array_equal(q_before[1], np.asarray(r0.quadrature.weights, float)))
+        rec.label("after-extrapolate-on-another-region")
     region = gm.region(mesh, info)
     X = np.array(mesh.points)
     ps = dim == 2
@@ -280,8 +289,18 @@ VIEW = ["view", "view-incompressible"]
 
 
 def view_strategy(name, tier):
-    return st.fixed_dictionaries({"mat": st_mat(), "ux": st.lists(fl(0.75, 1.45), min_size=1, max_size=4), "ps": st.lists(fl(1.0, 1.4), min_size=1, max_size=3),
-                                  "bx": st.lists(fl(1.0, 1.3), min_size=1, max_size=3)})
+    usual = st.fixed_dictionaries({"mat": st_mat(), "ux": st.lists(fl(0.75, 1.45), min_size=1, max_size=4), "ps": st.lists(fl(1.0, 1.4), min_size=1, max_size=3),
+                                   "bx": st.lists(fl(1.0, 1.3), min_size=1, max_size=3)})
+
+    # soft volumetric response and long stretch ranges that include compression: the lateral-stretch solver of the compressible
+    # view has to leave its incompressible start guess (restart branches)
+    def ramp(lo, hi):
+        return st.tuples(fl(*lo), fl(*hi), st.integers(8, 30)).map(lambda t: np.round(np.linspace(t[0], t[1], t[2]), 4).tolist())
+
+    soft = st.fixed_dictionaries({"mat": st.fixed_dictionaries({"name": st.just("NeoHooke"), "soft": st.just(True),
+                                                                "params": st.tuples(fl(0.5, 2), fl(0.5, 2)).map(lambda t: {"mu": t[0], "bulk": round(t[0] * t[1], 3)})}),
+                                  "ux": ramp((0.6, 0.9), (1.5, 2.5)), "ps": ramp((0.7, 0.95), (1.4, 2.0)), "bx": ramp((0.6, 0.9), (1.5, 2.5))})
+    return st.one_of(usual, usual, soft) if name == "view" else usual
 
 
 def view_check(name, case, rec):
